@@ -72,15 +72,21 @@ type interp struct {
 // projection rule; when they disagree the result is undetermined.
 func Eval(src string, doc any) Res {
 	pa := Parse(src, Prose)
+	pb := Parse(src, RefImpl)
+	same := pa.Syntax == pb.Syntax && pa.AST != nil && pb.AST != nil && pa.AST.String() == pb.AST.String()
+	return EvalBoth(pa, pb, same, doc)
+}
+
+// EvalBoth is Eval on prepared parses (same: the two parses are identical).
+func EvalBoth(pa, pb ParseResult, same bool, doc any) Res {
 	r := EvalParsed(pa, doc)
-	if r.U != "" {
+	if r.U != "" || same {
 		return r
 	}
-	pb := Parse(src, RefImpl)
 	if pa.Syntax != pb.Syntax {
 		return unsure("prose rule vs reference implementations: grammar membership differs")
 	}
-	if pa.AST != nil && pb.AST != nil && pa.AST.String() == pb.AST.String() {
+	if pa.Syntax && pb.Syntax {
 		return r
 	}
 	r2 := EvalParsed(pb, doc)
